@@ -47,6 +47,9 @@ TGEN_DEFAULT = dict(
     p_negpow=0.0,       # integer ** negative literal
     p_nested=0.0,       # an array element inside a subscript (indirect addressing)
     p_long=0.0,         # keep a statement whose text is longer than LONG_GEN characters
+    p_local_int=0.15,   # a local array is of integer type (class py-local-int-array)
+    clamp_subscripts=True,   # subscripts may be min(max(e, lo), hi)
+    int_calls=True,     # ABS / MIN / MAX inside integer expressions
     p_pow=0.15,         # ** with exponent 2 or 3
     p_while=0.1,
     p_local_arrays=0.5,
@@ -160,7 +163,7 @@ class TGen:
         for ty in ['int', 'real'] + [rng.choice(('int', 'real', 'logical')) for _ in range(rng.randint(0, 2))]:
             self.declare(fresh(ty, False), ty)
         if rng.random() < cfg['p_local_arrays']:
-            ty = rng.choice(('int', 'real'))
+            ty = 'int' if rng.random() < cfg['p_local_int'] else 'real'
             self.declare(fresh(ty, True), ty, 'none', [self.mkdim(syms) for _ in range(rng.choice((1, 2)))])
         for v in ('i1', 'i2', 'i3'):
             self.declare(v, 'int')
@@ -236,6 +239,8 @@ class TGen:
             return hi_ex
         if isinstance(ext, int) and r < 0.8:
             return ilit(lo + rng.randrange(ext))
+        if not self.cfg['clamp_subscripts']:
+            return lo_ex if rng.random() < 0.5 else hi_ex
         nested = rng.random() < self.cfg['p_nested']
         if not nested:
             self.in_sub += 1
@@ -260,7 +265,8 @@ class TGen:
             return self.elem(rng.choice(ar))
         r = rng.random()
         if r < cfg['p_intdiv']:
-            den = ilit(rng.choice((2, 3, 4, -2, 5))) if rng.random() < 0.6 else BIN('add', CALL('abs', self.iexpr(d - 1)), I(1))
+            den = ilit(rng.choice((2, 3, 4, -2, 5))) if rng.random() < 0.6 or not cfg['int_calls'] \
+                else BIN('add', CALL('abs', self.iexpr(d - 1)), I(1))
             return BIN('div', self.iexpr(d - 1), den)
         r = rng.random()
         if r < cfg['p_mod']:
@@ -280,8 +286,8 @@ class TGen:
         if r < 0.5:
             return BIN('mul', ilit(rng.randint(2, 4)) if rng.random() < 0.5 else ilit(-rng.randint(1, 3)), self.iexpr(d - 1)) \
                 if rng.random() < 0.5 else BIN('mul', self.iexpr(d - 1), ilit(rng.randint(2, 3)))
-        if r < 0.6:
-            return NEG(self.iexpr(d - 1))
+        if r < 0.6 or not cfg['int_calls']:
+            return NEG(self.iexpr(d - 1)) if r < 0.75 else BIN('sub', self.iexpr(d - 1), self.iexpr(d - 1))
         if r < 0.7:
             return CALL('abs', self.iexpr(d - 1))
         if r < 0.85:
@@ -293,7 +299,7 @@ class TGen:
         if d <= 0 or rng.random() < 0.3:
             r = rng.random()
             sc = self.scalars('real')
-            ar = self.arrays('real')
+            ar = self.arrays('real') if not self.in_sub else []
             if r < 0.3 or not (sc or ar):
                 return rlit(Fraction(rng.randint(0, 24), 8))
             if r < 0.75 and sc or not ar:
